@@ -356,13 +356,18 @@ def main(argv=None):
     shards_cfg = getattr(mod, "SHARDS", {"quick": 1, "thorough": 16})
     nshards = a.shards or shards_cfg.get(a.tier, 1)
     jobs = [(prop_id, a.tier, seed, i, nshards, sorted(excluded), a.only) for i in range(nshards)]
-    if nshards == 1:
-        results = [shard_main(jobs[0])]
-    else:
-        import multiprocessing
-        mpctx = multiprocessing.get_context(getattr(mod, "MP_CONTEXT", "fork"))
-        with mpctx.Pool(min(nshards, os.cpu_count() or 1)) as pool:
-            results = pool.map(shard_main, jobs, chunksize=1)
+    try:
+        if nshards == 1:
+            results = [shard_main(jobs[0])]
+        else:
+            import multiprocessing
+            mpctx = multiprocessing.get_context(getattr(mod, "MP_CONTEXT", "fork"))
+            with mpctx.Pool(min(nshards, os.cpu_count() or 1)) as pool:
+                results = pool.map(shard_main, jobs, chunksize=1)
+    except BaseException as e:  # noqa  -- a worker died, the pool broke, interrupted ...: never a verdict
+        traceback.print_exc()
+        print("HARNESS-ERROR property=%s worker pool failed: %s" % (prop_id, type(e).__name__))
+        return 2
     bad = [r for r in results if not r["ok"]]
     if bad:
         print(bad[0]["error"])
@@ -444,4 +449,12 @@ def write_evidence(mod, prop_id, tier, seed, stats, wall, nviol, nshards, n_reg,
 
 
 if __name__ == "__main__":
-    sys.exit(main())
+    try:
+        rc = main()
+    except SystemExit:
+        raise
+    except BaseException:  # noqa  -- anything unforeseen in the harness itself is exit 2, never a violation
+        traceback.print_exc()
+        print("HARNESS-ERROR unexpected exception in the runner")
+        rc = 2
+    sys.exit(rc)
